@@ -103,9 +103,10 @@ Definition ether_type (l : bytes) : N := bits l 96 16.
 Definition ether_hlen (l : bytes) : nat :=
   if ether_type l =? 33024 then 18%nat else if ether_type l =? 34984 then 22%nat else 14%nat.
 (* source / destination address of the IP packet carried directly after the 14-byte header *)
+(* ... when the frame holds a complete fixed IP header; otherwise no address (the documented convention) *)
 Definition ether_ip (off4 off6 : nat) : spec := fun l =>
-  if ether_type l =? 2048 then VX (sub l (14 + off4) 4)
-  else if ether_type l =? 34525 then VX (sub l (14 + off6) 16)
+  if (ether_type l =? 2048) && Nat.leb 34 (blen l) then VX (sub l (14 + off4) 4)
+  else if (ether_type l =? 34525) && Nat.leb 54 (blen l) then VX (sub l (14 + off6) 16)
   else VX [].
 Definition Ether_specs : stable :=
   [sp "Dst" (srange 0 6); sp "DstIP" (ether_ip 16 24); sp "EtherType" (fun l => VN (ether_type l));
